@@ -1077,7 +1077,7 @@ func (st *State) entMethod(fr *Frame, in ssa.CallInstruction, callee *ssa.Functi
 			}
 			st.unsupported("ent: %s on unknown field", name)
 		}
-		b.Sets = append(b.Sets, entSet{Col: col.Name, Op: "set", Val: st.colValueOf(col, args[1])})
+		b.Sets = append(b.Sets, entSet{Col: col.Name, Op: "set", Val: st.setterValue(col, callee, args[1])})
 		k(st, recv)
 	case strings.HasPrefix(name, "Clear"):
 		fname := strings.TrimPrefix(name, "Clear")
@@ -1104,6 +1104,19 @@ func (st *State) entMethod(fr *Frame, in ssa.CallInstruction, callee *ssa.Functi
 	default:
 		st.entTerminal(fr, in, callee, recv.(*EntH), name, args, k)
 	}
+}
+
+// setterValue: the column value a generated SetX(v) stores; fields declared with a pointer GoType
+// (e.g. *sqltypes.Interval) take the pointer and store the pointee.
+func (st *State) setterValue(col *entCol, callee *ssa.Function, arg SVal) *Term {
+	if len(callee.Params) >= 2 {
+		if pt, ok := callee.Params[1].Type().Underlying().(*types.Pointer); ok {
+			if _, isStruct := pt.Elem().Underlying().(*types.Struct); !isStruct || isOpaque(pt.Elem()) {
+				return st.colValueOf(col, st.load(st.heap, st.ptrAddr(arg, pt.Elem())))
+			}
+		}
+	}
+	return st.colValueOf(col, arg)
 }
 
 // colValueOf converts a Go value of a column's field type to the column's SMT value.
